@@ -18,6 +18,16 @@ def _lib():
     return htmltools
 
 
+class EnumLikeInt(int):
+    __str__ = int.__repr__
+    __repr__ = lambda self: "<Prio.LEVEL: %d>" % int(self)
+
+
+class EnumLikeFloat(float):
+    __str__ = float.__repr__
+    __repr__ = lambda self: "<Ratio.R: %s>" % float.__repr__(self)
+
+
 def conc_val(v, H):
     k = v["k"]
     if k == "str":
@@ -27,9 +37,13 @@ def conc_val(v, H):
     if k == "num":
         t = uncps(v["t"])
         try:
-            return int(t)
+            n = int(t)
         except ValueError:
-            return float(t)
+            n = float(t)
+        if v.get("sub"):
+            # a number whose repr() is not its str() text (enum.IntEnum / IntFlag members on current Pythons)
+            return (EnumLikeInt if isinstance(n, int) else EnumLikeFloat)(n)
+        return n
     if k == "true":
         return True
     if k == "false":
@@ -142,7 +156,7 @@ class _AttrBase(Prop):
             return {"k": "html", "t": cps(t.replace('"', "q"))}
         if r < 0.65:
             n = rnd.choice([0, 1, -3, 2.5, 1e21, 10 ** 12, -0.0])
-            return {"k": "num", "t": cps(str(n))}
+            return {"k": "num", "t": cps(str(n)), "sub": rnd.random() < 0.4}
         if plainish:
             return {"k": "str", "t": cps("p;")}
         return {"k": rnd.choice(["true", "false", "none", "none", "true", "bad"]), "t": []}
